@@ -357,8 +357,7 @@ theorem synced_eq_specBook {v : Venue} {l : Local} (hl : Synced v l) (hz1 : NonZ
   | mk sq bs as =>
     rw [hbk] at hb hk
     simp only [specBook] at hb hk ⊢
-    simp only at hb hk
-    rw [hb, hk]
+    rw [← hb, ← hk]
 
 theorem nonZero_step {r : Rules} {l : Local} {m : Update} (hz1 : NonZero l.book.bids)
     (hz2 : NonZero l.book.asks) :
@@ -382,5 +381,163 @@ theorem nonZero_run {r : Rules} {l : Local} {ms : List Update} (hz1 : NonZero l.
     · rw [hv]; exact ih hz1 hz2
     · rw [hv] at hm ⊢; exact ih hm.1 hm.2
     · rw [hv]; exact ⟨hz1, hz2⟩
+
+
+/-! ## no false alarm -/
+
+theorem run_stale_prefix {r : Rules} {l : Local} (old rest : List Update)
+    (h : ∀ m ∈ old, Stale r l.sequencer.lastUpdateId m) :
+    Local.run r l (old ++ rest) = Local.run r l rest := by
+  induction old with
+  | nil => rfl
+  | cons m old ih =>
+    rw [List.cons_append, local_run_cons]
+    rcases local_step_cases r l m with ⟨_, hv⟩ | ⟨hs, _, _⟩ | ⟨hs, _, _⟩
+    · rw [hv]; exact ih (fun x hx => h x (by simp [hx]))
+    · exact absurd (h m (by simp)) hs
+    · exact absurd (h m (by simp)) hs
+
+theorem admitAll_cons (r : Rules) (l : Local) (m : Update) (ms : List Update) :
+    Local.admitAll r l (m :: ms) =
+      Local.admitAll r ⟨l.sequencer.advance r m, l.book.update m.toEvent⟩ ms := rfl
+
+/-- consecutive genuine messages following the current last id are all admitted -/
+theorem run_linked {r : Rules} {v : Venue} {l : Local} {ms : List Update}
+    (hup : l.sequencer.updatesProcessed ≠ 0) (hg : GenuineRun r v l.sequencer.lastUpdateId ms) :
+    Local.run r l ms = (Local.admitAll r l ms, none) := by
+  induction ms generalizing l with
+  | nil => rfl
+  | cons m ms ih =>
+    obtain ⟨⟨⟨hlt, hu, hspot, hfut⟩, _, _⟩, hrest⟩ := hg
+    have hf : (l.sequencer.updatesProcessed == 0) = false := by simpa using hup
+    have hs : ¬ Stale r l.sequencer.lastUpdateId m := by
+      cases r <;> simp [Stale] <;> omega
+    have he : Extends r (l.sequencer.updatesProcessed == 0) l.sequencer.lastUpdateId m := by
+      rw [hf]; unfold Extends
+      cases r <;> simp_all [NextRule]
+    rw [local_run_cons]
+    rcases local_step_cases r l m with ⟨h, _⟩ | ⟨_, _, hv⟩ | ⟨_, h, _⟩
+    · exact absurd h hs
+    · rw [hv, admitAll_cons]
+      exact ih (l := ⟨l.sequencer.advance r m, l.book.update m.toEvent⟩)
+        (by simp [Sequencer.advance]) (by simpa [Sequencer.advance] using hrest)
+    · exact absurd he h
+
+/-- … and so is a run whose first message covers the snapshot point, from a fresh sequencer -/
+theorem run_covering {r : Rules} {v : Venue} {l : Local} {c0 : Nat} {ms : List Update}
+    (hup : l.sequencer.updatesProcessed = 0) (hc : Covers r v l.sequencer.lastUpdateId c0 ms)
+    (hg : GenuineRun r v c0 ms) :
+    Local.run r l ms = (Local.admitAll r l ms, none) := by
+  cases ms with
+  | nil => rfl
+  | cons m ms =>
+    obtain ⟨⟨⟨hlt, hu, hspot, hfut⟩, _, _⟩, hrest⟩ := hg
+    have hf : (l.sequencer.updatesProcessed == 0) = true := by simpa using hup
+    have hs : ¬ Stale r l.sequencer.lastUpdateId m := by
+      cases r <;> simp_all [Stale, Covers] <;> omega
+    have he : Extends r (l.sequencer.updatesProcessed == 0) l.sequencer.lastUpdateId m := by
+      rw [hf]; unfold Extends
+      cases r
+      · simp_all [FirstRule, Covers]; omega
+      · simp only [Covers] at hc
+        obtain ⟨h1, h2, c, hcv, hcid⟩ := hc
+        have := (hfut rfl).2.2 c hcv (by omega) (by omega)
+        simp [FirstRule]; omega
+    rw [local_run_cons]
+    rcases local_step_cases r l m with ⟨h, _⟩ | ⟨_, _, hv⟩ | ⟨_, h, _⟩
+    · exact absurd h hs
+    · rw [hv, admitAll_cons]
+      exact run_linked (l := ⟨l.sequencer.advance r m, l.book.update m.toEvent⟩)
+        (by simp [Sequencer.advance]) (by simpa [Sequencer.advance] using hrest)
+    · exact absurd he h
+
+theorem admitAll_state (r : Rules) (l : Local) (ms : List Update) :
+    (Local.admitAll r l ms).sequencer.updatesProcessed = l.sequencer.updatesProcessed + ms.length ∧
+    (Local.admitAll r l ms).sequencer.lastUpdateId =
+      ((ms.getLast?.map (·.lastUpdateId)).getD l.sequencer.lastUpdateId) := by
+  induction ms generalizing l with
+  | nil => simp [Local.admitAll]
+  | cons m ms ih =>
+    rw [admitAll_cons]
+    have := ih ⟨l.sequencer.advance r m, l.book.update m.toEvent⟩
+    refine ⟨by rw [this.1]; simp [Sequencer.advance]; omega, ?_⟩
+    rw [this.2, List.getLast?_cons]
+    cases ms.getLast? <;> simp [Sequencer.advance]
+
+/-! ## routing: instruments on one connection are independent -/
+
+theorem lookup_setSequencer (m : List (Nat × Meta)) (sub : Nat) (sq : Sequencer) (a : Nat) :
+    (setSequencer m sub sq).lookup a =
+      if a = sub then (m.lookup a).map (fun im => { im with sequencer := sq }) else m.lookup a := by
+  induction m with
+  | nil => simp [setSequencer]
+  | cons x xs ih =>
+    obtain ⟨s, im⟩ := x
+    simp only [setSequencer, List.map_cons] at ih ⊢
+    by_cases hs : s = sub
+    · by_cases ha : a = s
+      · subst ha; subst hs; simp [List.lookup]
+      · have ha' : (a == s) = false := by simpa using ha
+        simp only [hs, ↓reduceIte, List.lookup] at ih ⊢
+        rw [← hs, ha']
+        simpa [hs] using ih
+    · by_cases ha : a = s
+      · subst ha; simp [hs, List.lookup]
+      · have ha' : (a == s) = false := by simpa using ha
+        simp only [hs, ↓reduceIte, List.lookup, ha']
+        exact ih
+
+theorem lookup_managerStep (books : Books) (k : Nat) (ev : Event) (k' : Nat) :
+    (managerStep books (.item k ev)).lookup k' =
+      if k' = k then (books.lookup k').map (·.update ev) else books.lookup k' := by
+  induction books with
+  | nil => simp [managerStep]
+  | cons x xs ih =>
+    obtain ⟨kx, b⟩ := x
+    simp only [managerStep, List.map_cons] at ih ⊢
+    by_cases hx : kx = k
+    · by_cases hk : k' = kx
+      · subst hk; subst hx; simp [List.lookup]
+      · have hk' : (k' == kx) = false := by simpa using hk
+        simp only [hx, ↓reduceIte, List.lookup] at ih ⊢
+        rw [← hx, hk']
+        simpa [hx] using ih
+    · by_cases hk : k' = kx
+      · subst hk; simp [hx, List.lookup]
+      · have hk' : (k' == kx) = false := by simpa using hk
+        simp only [hx, ↓reduceIte, List.lookup, hk']
+        exact ih
+
+theorem transform_unknown {r : Rules} {t : Transformer} {m : Update}
+    (h : t.instrumentMap.lookup m.sub = none) :
+    t.transform r m = (t, [.error (.unidentifiable m.sub)]) := by
+  simp [Transformer.transform, h]
+
+/-- `transform` for a subscribed instrument, by the venue rule -/
+theorem transform_known {r : Rules} {t : Transformer} {m : Update} {im : Meta}
+    (h : t.instrumentMap.lookup m.sub = some im) :
+    (Stale r im.sequencer.lastUpdateId m ∧
+      t.transform r m = (⟨setSequencer t.instrumentMap m.sub im.sequencer⟩, [])) ∨
+    (¬ Stale r im.sequencer.lastUpdateId m ∧
+      Extends r (im.sequencer.updatesProcessed == 0) im.sequencer.lastUpdateId m ∧
+      t.transform r m = (⟨setSequencer t.instrumentMap m.sub (im.sequencer.advance r m)⟩,
+        [.event im.key m.toEvent])) ∨
+    (¬ Stale r im.sequencer.lastUpdateId m ∧
+      ¬ Extends r (im.sequencer.updatesProcessed == 0) im.sequencer.lastUpdateId m ∧
+      t.transform r m = (⟨setSequencer t.instrumentMap m.sub im.sequencer⟩,
+        [.error (.invalidSequence im.sequencer.lastUpdateId m.firstUpdateId)])) := by
+  rcases validate_cases r im.sequencer m with ⟨hs, hv⟩ | ⟨hs, he, hv⟩ | ⟨hs, he, hv⟩
+  · exact .inl ⟨hs, by simp [Transformer.transform, h, hv]⟩
+  · exact .inr (.inl ⟨hs, he, by simp [Transformer.transform, h, hv]⟩)
+  · exact .inr (.inr ⟨hs, he, by simp [Transformer.transform, h, hv]⟩)
+
+/-- a message never changes the entry of another subscription -/
+theorem transform_other (r : Rules) (t : Transformer) (m : Update) (b : Nat) (hb : b ≠ m.sub) :
+    (t.transform r m).1.instrumentMap.lookup b = t.instrumentMap.lookup b := by
+  cases h : t.instrumentMap.lookup m.sub with
+  | none => rw [transform_unknown h]
+  | some im =>
+    rcases transform_known (r := r) h with ⟨_, hv⟩ | ⟨_, _, hv⟩ | ⟨_, _, hv⟩ <;>
+      rw [hv] <;> simp [lookup_setSequencer, hb]
 
 end BarterModel.BinanceL2
